@@ -52,6 +52,9 @@ FILE_FAULTS = {
     "top_level_scalar": ("json", "5", None),
     "top_level_string": ("json", '"text"', None),
     "top_level_null": ("json", "null", None),
+    # a string value that cannot be encoded (a lone surrogate written as a JSON escape): whatever stage rejects it, an existing
+    # output file must not have been touched by then
+    "lone_surrogate_value": ("json", '[{"id": 7, "name": "\\ud83d"}]', None),
     "top_level_empty_string": ("json", '""', None),
     "lookup_to_empty_string": ("json", json.dumps({"meta": {"note": ""}, "d": {"items": [{"id": 9}]}}), "meta.note"),
     "lookup_to_empty_string_yaml": ("yaml", "meta:\n  note: \"\"\n", "meta.note"),
